@@ -2909,8 +2909,10 @@ sexp sexp_ratio_normalize (sexp ctx, sexp rat, sexp in) {
   sexp_ratio_numerator(rat)
     = sexp_quotient(ctx, sexp_ratio_numerator(rat), num);
   if (sexp_exact_negativep(sexp_ratio_denominator(rat))) {
-    sexp_negate(sexp_ratio_numerator(rat));
-    sexp_negate(sexp_ratio_denominator(rat));
+    /* don't negate in place: sexp_quotient may have returned its argument */
+    /* itself, and negating the most negative fixnum needs a bignum */
+    sexp_ratio_numerator(rat) = sexp_mul(ctx, sexp_ratio_numerator(rat), SEXP_NEG_ONE);
+    sexp_ratio_denominator(rat) = sexp_mul(ctx, sexp_ratio_denominator(rat), SEXP_NEG_ONE);
   }
   sexp_ratio_numerator(rat) = sexp_bignum_normalize(sexp_ratio_numerator(rat));
   sexp_ratio_denominator(rat) = sexp_bignum_normalize(sexp_ratio_denominator(rat));
